@@ -206,10 +206,11 @@ def run(tier, seed):
     r = vlib.tlc("C17", FAMILY, "AggSigDBMC", "AggSigDBMC_ascoded1.cfg", timeout=600)
     vlib.require_mc_ok(r, "AggSigDBMC_ascoded1")
     o.selftests.append({"control": "capacity-1 notify channel with ONE reader satisfies NoLostWakeup", "rejected_as_required": True})
-    r = vlib.tlc("C17", FAMILY, "AggSigDBMC", "AggSigDBMC_live_ascoded.cfg", timeout=600)
-    if "Temporal propert" not in r.out or "violated" not in r.out:
-        raise vlib.Infra("design-spec control AggSigDBMC_live_ascoded not violated: " + r.summary())
-    o.selftests.append({"control": "capacity-1 notify channel violates liveness (reader with stored key sleeps forever)", "rejected_as_required": True})
+    if thorough:
+        r = vlib.tlc("C17", FAMILY, "AggSigDBMC", "AggSigDBMC_live_ascoded.cfg", timeout=600)
+        if "Temporal propert" not in r.out or "violated" not in r.out:
+            raise vlib.Infra("design-spec control AggSigDBMC_live_ascoded not violated: " + r.summary())
+        o.selftests.append({"control": "capacity-1 notify channel violates liveness (reader with stored key sleeps forever)", "rejected_as_required": True})
     # stage 1: schedules
     scheds, g = vlib.gen_schedules("C17", FAMILY, "AggSigDBGen", "AggSigDBGen.cfg", num=400 if thorough else 60,
                                    depth=60, seed=seed, limit=2500 if thorough else 250)
